@@ -598,14 +598,61 @@ pub fn run_item(tier: Tier, item: usize) -> ItemResult {
     ItemResult { item, label: format!("{}/{}", case.family, case.name), stats, violations, counters, sample: json!({"case": case}) }
 }
 
+/// HTTP/2 frontend half: the malformed-request family of C15(b), judged for what reaches the backend
+pub fn run_h2_item(tier: Tier, item: usize) -> ItemResult {
+    let all = super::c15b::request_cases(tier);
+    let case = all[item].clone();
+    let mut violations = vec![];
+    let c2 = case.clone();
+    let stats = explore::search(
+        if tier == Tier::Quick { 0 } else { 1 },
+        if tier == Tier::Quick { 3 } else { 60 },
+        |prefix| {
+            let c = c2.clone();
+            let p = prefix.to_vec();
+            match worker::isolated(move || super::c15b::run_case_tagged("C03|h2-h1", &c, p.clone(), super::c15b::profile())) {
+                Ok(r) => r,
+                Err(status) => {
+                    let mut r = super::c01::crashed_run(prefix, &status);
+                    for v in r.violations.iter_mut() {
+                        v.0 = v.0.replace("C01|any", &format!("C03|h2-h1|{}|{}", c2.state, c2.name));
+                    }
+                    r
+                }
+            }
+        },
+        |vector, key, desc| {
+            violations.push((key.to_owned(), desc.to_owned(), json!({"part": "h2", "state": case.state, "name": case.name, "choices": vector}), vector.iter().filter(|c| **c != 0).count() as u64));
+        },
+    );
+    let mut counters = BTreeMap::new();
+    counters.insert("sim_executions".to_owned(), stats.executions);
+    ItemResult { item, label: format!("{}/{}", case.state, case.name), stats, violations, counters, sample: json!({"part": "h2", "state": case.state, "name": case.name}) }
+}
+
 pub fn run(ctx: &Ctx) -> Coverage {
     let tier = ctx.tier();
     let n = cases(tier).len();
     let results = explore::run_sharded(ctx, n, "c03", |i| run_item(tier, i));
-    super::c01::summarize(ctx, &results, "HTTP/1.1 client bytes through an unmodified worker to an HTTP/1.1 backend: request-line, Host, Content-Length, Transfer-Encoding, both-framings, chunked-body, field-syntax and pipeline families (every smuggling shape spellable in HTTP/1.1), each followed by a marker request, the client's write cut at the explored positions (quick: line and colon boundaries; thorough: every byte) plus one short / would-block read or write. Oracle: every backend connection parses under an independent canonical RFC 9112 reader (one framing header in its simplest spelling, one Host, no control bytes, no obs-fold, no bare LF); every request found there carries a Sozu-Id sozu generated (so it is a request sozu understood); for canonical client input the forwarded sequence equals the client's in method, target, host and body; the response stream is well formed")
+    let nh = super::c15b::request_cases(tier).len();
+    let h2_results = explore::run_sharded(ctx, nh, "c03-h2", |i| run_h2_item(tier, i));
+    let mut cov = Coverage::aggregate();
+    cov.absorb("b-h2-frontend", super::c01::summarize(ctx, &h2_results, "HTTP/2 (TLS) client to HTTP/1.1 backend: the malformed-request family (missing / duplicate / misplaced / unknown pseudo-headers, upper-case and connection-specific fields, CR LF NUL and spaces in names, values, :path and :authority, Host differing from :authority, Content-Length disagreeing with DATA in both directions whether the stream is ended by DATA, by HEADERS or by trailers, non-numeric and duplicate Content-Length, 70 kB header lists, broken header blocks, padded and empty DATA) in two connection states. Every backend connection must parse under the canonical RFC 9112 reader, every request found there must carry the correlation header sozu adds, nothing of a request that must be refused may reach the backend, and the refusal is the stream / connection error RFC 9113 prescribes"));
+    cov.absorb("a-h1-frontend", super::c01::summarize(ctx, &results, "HTTP/1.1 client bytes through an unmodified worker to an HTTP/1.1 backend: request-line, Host, Content-Length, Transfer-Encoding, both-framings, chunked-body, field-syntax and pipeline families (every smuggling shape spellable in HTTP/1.1), each followed by a marker request, the client's write cut at the explored positions (quick: line and colon boundaries; thorough: every byte) plus one short / would-block read or write. Oracle: every backend connection parses under an independent canonical RFC 9112 reader (one framing header in its simplest spelling, one Host, no control bytes, no obs-fold, no bare LF); every request found there carries a Sozu-Id sozu generated (so it is a request sozu understood); for canonical client input the forwarded sequence equals the client's in method, target, host and body; the response stream is well formed"));
+    cov
 }
 
 pub fn replay(ctx: &Ctx, case: &Value) -> Coverage {
+    if case["part"] == "h2" {
+        let all = super::c15b::request_cases(Tier::Thorough);
+        let c = all.iter().find(|c| Some(c.name.as_str()) == case["name"].as_str() && Some(c.state.as_str()) == case["state"].as_str()).cloned().unwrap_or_else(|| crate::common::machinery_error("unknown C03 h2 case in replay"));
+        let choices: Vec<u32> = serde_json::from_value(case["choices"].clone()).unwrap_or_default();
+        let r = worker::isolated(move || super::c15b::run_case_tagged("C03|h2-h1", &c, choices, super::c15b::profile())).unwrap_or_else(|s| super::c01::crashed_run(&[], &s));
+        for (k, d) in r.violations {
+            ctx.violation(k, d, case.clone());
+        }
+        return Coverage { states: 1, transitions: 1, evaluations: 1, distinct_nontrivial: 1, distinct_outcomes: 1, rule: "replay".into(), ..Default::default() };
+    }
     let c: Case = serde_json::from_value(case["case"].clone()).unwrap_or_else(|e| crate::common::machinery_error(&format!("bad replay case: {e}")));
     let choices: Vec<u32> = serde_json::from_value(case["choices"].clone()).unwrap_or_default();
     let all = case["all_splits"].as_bool().unwrap_or(false);
